@@ -179,11 +179,20 @@ func c17ReadRecs(from int) []c17Rec {
 // oracle, applied at every credential helper call
 
 type c17Obs struct {
-	r       *vx.Result
-	nrec    int      // stub invocations already attributed to earlier calls of this case
-	calls   []string // op:class per observed call, for the outcome string
-	ncall   int
-	caseKey string // flow scenario: identity of the case (maps contain the worker's ephemeral port, so they cannot serve as keys)
+	r     *vx.Result
+	nrec  int      // stub invocations already attributed to earlier calls of this case
+	calls []string // op:class per observed call, for the outcome string
+	ncall int
+	// sequence scenario: the credential cache of the shared context may legitimately answer this call instead of
+	// `git credential` (then "delivered" is not demanded and a missing error is no violation; the helper must
+	// still never receive a value that has to be refused)
+	cacheMayAnswer bool
+	// finding-1 (see props/C17/finding-1.md): when the decoded URL path contains a control byte, git-lfs cannot parse
+	// its own "scheme://host/path" lookup string and silently ignores URL-scoped credential.<url>.protectProtocol.
+	// Violations of the CR clauses that arise exactly under that condition get this root-cause fingerprint.
+	scopedIgnored bool
+	fpSuffix      string // appended to fingerprints (sequence scenario: position in the sequence and what preceded)
+	caseKey       string // flow scenario: identity of the case (maps contain the worker's ephemeral port, so they cannot serve as keys)
 }
 
 func c17CopyCreds(in creds.Creds) creds.Creds {
@@ -286,6 +295,16 @@ func c17Quote(in creds.Creds) string {
 }
 
 func (o *c17Obs) viol(fp, msg string, detail map[string]interface{}) {
+	if o.scopedIgnored && strings.HasPrefix(fp, "C17:refused-value-reached-helper:CR:") {
+		fp = "C17:url-scoped-protectProtocol-ignored:control-byte-in-url-path:CR-reached-helper"
+	} else if o.scopedIgnored && fp == "C17:clean-pairs-not-delivered:CR" {
+		fp = "C17:url-scoped-protectProtocol-ignored:control-byte-in-url-path:CR-refused-although-disabled"
+	} else {
+		fp += o.fpSuffix
+	}
+	if o.fpSuffix != "" {
+		msg = "[" + strings.TrimPrefix(o.fpSuffix, ":") + "] " + msg
+	}
 	if len(o.r.Violations) < 4 {
 		o.r.Violations = append(o.r.Violations, vx.Violation{Fingerprint: fp, Msg: msg, Detail: detail})
 	}
@@ -350,6 +369,9 @@ func (o *c17Obs) call(h creds.CredentialHelper, op string, supplied creds.Creds,
 			o.viol("C17:refused-value-reached-helper:"+class+":"+fkind,
 				fmt.Sprintf("git credential %s: a value containing %s (protectProtocol=%v) must be refused, but the helper received input.\n supplied: %s\n helper got: %s\n error returned: %v",
 					op, class, protect, c17Quote(in), strings.Join(got, " | "), err), detail)
+		case err == nil && o.cacheMayAnswer:
+			o.r.Counters["bad_value_answered_by_cache_helper_got_nothing"]++
+			o.calls = append(o.calls, op+":cache-"+class)
 		case err == nil:
 			o.calls = append(o.calls, op+":SILENT-"+class)
 			o.viol("C17:refusal-not-reported:"+class+":"+fkind,
@@ -365,6 +387,11 @@ func (o *c17Obs) call(h creds.CredentialHelper, op string, supplied creds.Creds,
 
 	vclass := c17ValueClass(in)
 	o.r.Counters["clause_deliver_"+vclass]++
+	if len(recs) == 0 && o.cacheMayAnswer {
+		o.r.Counters["clean_value_answered_by_cache"]++
+		o.calls = append(o.calls, op+":cache-answered")
+		return out, err
+	}
 	if len(recs) == 0 {
 		o.calls = append(o.calls, op+":NOT-DELIVERED")
 		o.viol("C17:clean-pairs-not-delivered:"+vclass,
@@ -1021,12 +1048,216 @@ func c17RunFlow(x *vx.X) vx.Result {
 }
 
 // ------------------------------------------------------------------------------------------------
+// scenario "sequence": two (thorough: also three) exchanges in ONE CredentialHelperContext, i.e. with the shared
+// command helper, credential cache and context lists that one git-lfs process / one lfsapi.Client uses for all of
+// its requests.  Every exchange is judged by the unchanged oracle under the configuration that applies to THAT
+// exchange's URL.
+
+var c17SeqHosts = []string{"a.example", "b.example", "c.example"} // A, B may carry URL-scoped settings; C never does
+
+// world = (global, scoped-for-A, scoped-for-B) setting of credential.protectProtocol; 0 unset, 1 false, 2 true
+type c17World [3]int
+
+func (w c17World) name() string {
+	n := []string{"-", "f", "t"}
+	return "g" + n[w[0]] + "A" + n[w[1]] + "B" + n[w[2]]
+}
+
+func (w c17World) cfg() map[string]string {
+	m := map[string]string{"credential.usehttppath": "true"}
+	val := []string{"", "false", "true"}
+	if w[0] != 0 {
+		m["credential.protectprotocol"] = val[w[0]]
+	}
+	for i := 0; i < 2; i++ {
+		if w[i+1] != 0 {
+			m["credential.https://"+c17SeqHosts[i]+".protectprotocol"] = val[w[i+1]]
+		}
+	}
+	return m
+}
+
+// protect: URL-scoped setting wins over the global one; default enabled.
+func (w c17World) protect(host int) bool {
+	if host < 2 && w[host+1] != 0 {
+		return w[host+1] == 2
+	}
+	if w[0] != 0 {
+		return w[0] == 2
+	}
+	return true
+}
+
+func c17AllWorlds() []c17World {
+	var r []c17World
+	for g := 0; g < 3; g++ {
+		for a := 0; a < 3; a++ {
+			for b := 0; b < 3; b++ {
+				r = append(r, c17World{g, a, b})
+			}
+		}
+	}
+	return r
+}
+
+// the slice of worlds used where the full 27 are too many
+var c17WorldSlice = []c17World{{0, 0, 0}, {0, 1, 0}, {0, 2, 0}, {1, 0, 0}, {1, 2, 0}, {0, 1, 2}, {0, 1, 1}, {2, 1, 0}, {1, 0, 2}}
+
+type c17Exch struct {
+	host  int
+	op    string
+	field int // index into c17SeqFields, -1: no byte inserted
+	seq   string
+	pos   int // 0 start, 1 middle, 2 end
+}
+
+var c17SeqFields = []string{"username", "password", "path", "wwwauth[]#1", "wwwauth[]#0"}
+
+func (e c17Exch) String() string {
+	h := string("ABC"[e.host])
+	if e.field < 0 {
+		return h + "." + e.op + ".clean"
+	}
+	return fmt.Sprintf("%s.%s.%s+%q@%d", h, e.op, c17SeqFields[e.field], e.seq, e.pos)
+}
+
+// choose a plain exchange: host x operation, optionally with a CR in the username
+func c17ChoosePlain(x *vx.X, withCR bool) c17Exch {
+	e := c17Exch{host: x.In(3), op: c17Ops[x.In(3)], field: -1}
+	if withCR && x.In(2) == 1 {
+		e.field, e.seq, e.pos = 0, "\r", 1
+	}
+	return e
+}
+
+// choose a probing exchange: host x operation x field x {CR, LF, NUL, clean byte} x position
+func c17ChooseProbe(x *vx.X, full bool) c17Exch {
+	e := c17Exch{host: x.In(3), op: c17Ops[x.In(3)]}
+	four := []string{"\r", "\n", "\x00", "x"}
+	if full {
+		e.field = x.In(5)
+		e.seq = four[x.In(4)]
+		e.pos = x.In(3)
+		return e
+	}
+	// reduced: 4 fields; CR at start/middle/end, LF / NUL / clean byte in the middle
+	e.field = x.In(4)
+	k := x.In(6)
+	if k < 3 {
+		e.seq, e.pos = "\r", k
+	} else {
+		e.seq, e.pos = four[k-2], 1
+	}
+	return e
+}
+
+func c17RunSeq(x *vx.X) vx.Result {
+	r := vx.Result{Counters: map[string]int64{}}
+	o := &c17Obs{r: &r}
+	var w c17World
+	var exs []c17Exch
+	cacheOn := true
+	if !c17Thorough() {
+		// quick: 9 worlds x (3 hosts x 3 ops, clean) x reduced probe (3 hosts x 3 ops x 4 fields x 6 byte/position pairs)
+		w = c17WorldSlice[x.In(len(c17WorldSlice))]
+		exs = append(exs, c17ChoosePlain(x, false), c17ChooseProbe(x, false))
+	} else {
+		switch x.In(3) {
+		case 0: // all 27 worlds x (host x op x {clean, CR}) x full probe
+			all := c17AllWorlds()
+			w = all[x.In(len(all))]
+			exs = append(exs, c17ChoosePlain(x, true), c17ChooseProbe(x, true))
+		case 1: // lfs.cachecredentials=false: 9 worlds x plain x full probe
+			cacheOn = false
+			w = c17WorldSlice[x.In(len(c17WorldSlice))]
+			exs = append(exs, c17ChoosePlain(x, false), c17ChooseProbe(x, true))
+		case 2: // three exchanges: 9 worlds x plain x plain x reduced probe
+			w = c17WorldSlice[x.In(len(c17WorldSlice))]
+			exs = append(exs, c17ChoosePlain(x, false), c17ChoosePlain(x, false), c17ChooseProbe(x, false))
+		}
+	}
+	cfg := w.cfg()
+	if !cacheOn {
+		cfg["lfs.cachecredentials"] = "false"
+	}
+	c17ResetRecs([]byte(c17DefaultAnswer))
+	cx := c17Env(cfg)
+	hctx := creds.NewCredentialHelperContext(cx.GitEnv(), cx.OSEnv()) // ONE context for the whole sequence
+	mayBeCached := map[string]bool{}
+	var hist, descs []string
+	for k, e := range exs {
+		user, pass, path := "user", "pw", "org/repo.git"
+		www := []string{"Basic realm=\"r\"", "Bearer t"}
+		at := func(base string) int { return []int{0, len(base) / 2, len(base)}[e.pos] }
+		if e.field >= 0 {
+			switch c17SeqFields[e.field] {
+			case "username":
+				user = c17Place(user, c17Pct(e.seq[0]), at(user))
+			case "password":
+				pass = c17Place(pass, e.seq, at(pass))
+			case "path":
+				path = c17Place(path, c17Pct(e.seq[0]), at(path))
+			case "wwwauth[]#1":
+				www[1] = c17Place(www[1], e.seq, at(www[1]))
+			case "wwwauth[]#0":
+				www[0] = c17Place(www[0], e.seq, at(www[0]))
+			}
+		}
+		u, err := url.Parse("https://" + user + "@" + c17SeqHosts[e.host] + "/" + path)
+		if err != nil {
+			panic(vx.ToolError{Msg: "C17 sequence: generated URL does not parse: " + err.Error()})
+		}
+		hctx.SetWWWAuthHeaders(www) // as lfsapi does from the previous 401 before asking for credentials
+		wr := hctx.GetCredentialHelper(nil, u)
+		m := c17CopyCreds(wr.Input)
+		if e.op != "fill" || (e.field >= 0 && c17SeqFields[e.field] == "password") {
+			m["password"] = []string{pass}
+		}
+		protect := w.protect(e.host)
+		ckey := strings.Join([]string{creds.FirstEntryForKey(m, "protocol"), creds.FirstEntryForKey(m, "host"), creds.FirstEntryForKey(m, "path")}, "//")
+		o.cacheMayAnswer = cacheOn && e.op != "reject" && mayBeCached[ckey]
+		o.fpSuffix = ""
+		if k > 0 {
+			o.fpSuffix = fmt.Sprintf(":seq-ex%d-%s-after-%s", k+1, c17HostProt(w, e.host), strings.Join(hist, ","))
+		}
+		// root-cause condition of finding-1: the lookup string scheme://host/<decoded path> does not parse and a
+		// URL-scoped setting for this host says something else than the global/default fallback
+		_, lookupErr := url.Parse(fmt.Sprintf("%s://%s%s", u.Scheme, u.Host, u.Path))
+		o.scopedIgnored = lookupErr != nil && e.host < 2 && w[e.host+1] != 0 && protect != (c17World{w[0], 0, 0}).protect(e.host)
+		o.caseKey = fmt.Sprintf("%s/cache=%v/%s|%s", w.name(), cacheOn, strings.Join(descs, "|"), e.String())
+		o.call(wr.CredentialHelper, e.op, m, protect)
+		switch e.op {
+		case "approve":
+			mayBeCached[ckey] = true // over-approximation: also when the approve was refused
+		case "reject":
+			delete(mayBeCached, ckey)
+		}
+		hist = append(hist, c17HostProt(w, e.host))
+		descs = append(descs, e.String())
+	}
+	c17Finish(o, &r, "sequence", fmt.Sprintf("len=%d", len(exs)))
+	r.Sample = map[string]interface{}{"scenario": "sequence", "world(global,A,B)": w.name(), "config": fmt.Sprintf("%q", cfg), "exchanges": descs, "outcome": r.Outcome}
+	return r
+}
+
+// c17HostProt names where the exchange's protection setting comes from and what it is, e.g. "scoped.off", "default.on".
+func c17HostProt(w c17World, host int) string {
+	src := "default"
+	if host < 2 && w[host+1] != 0 {
+		src = "scoped"
+	} else if w[0] != 0 {
+		src = "global"
+	}
+	return src + map[bool]string{true: ".on", false: ".off"}[w.protect(host)]
+}
+
+// ------------------------------------------------------------------------------------------------
 // worker processes
 
 var c17Parts = []struct {
 	name string
 	run  vx.RunFunc
-}{{"direct", c17RunDirect}, {"url", c17RunURL}, {"flow", c17RunFlow}}
+}{{"direct", c17RunDirect}, {"url", c17RunURL}, {"flow", c17RunFlow}, {"sequence", c17RunSeq}}
 
 type c17Req struct {
 	Part   string     `json:"part"`
@@ -1246,13 +1477,17 @@ func TestVerifC17(t *testing.T) {
 		"all 256 single bytes x every index x every slot (quick: approve x {unset,false}; thorough: all ops x all 5 configurations), all ordered slot pairs x {LF,CR,NUL,'x'}^2, value shapes (empty, 1 byte, 70 kB with the byte first/middle/last, single-key map, 3 values). " +
 		"url: maps built by GetCredentialHelper from URLs: 5 scheme/useHttpPath variants x component {user, password, path, host, user+path} x {percent-encoded, raw} x all 256 bytes x {start, middle, end} x {protection unset, false}; wwwauth[]/state[] lists set on the context x palette x position x skipwwwauth. " +
 		"flow: Client.DoWithAuth against a loopback server: 13 modes (raw byte in WWW-/LFS-Authenticate header values, percent-encoded byte in lfs.url / remote URL userinfo and path, byte in the helper's own answer that is fed back into approve / state[] of the next fill) x all 256 bytes x 3 positions x {unset,false}. " +
-		"distinct_nontrivial = distinct (operation, protection, supplied map) tuples whose values contain at least one control / non-ASCII byte and for which a helper call was made and judged (flow: distinct (protection, mode, byte, position, call number) with such a map, because those maps contain an ephemeral port); plain-ASCII cases only count as evaluations"
+		"sequence: 2 (thorough: also 3) exchanges in ONE CredentialHelperContext (shared command helper, cache, context lists): world = (global, URL-scoped for host A, URL-scoped for host B) credential.protectProtocol in {unset,false,true}^3 " +
+		"(quick: 9-world slice; thorough: all 27) x earlier exchange(s) {host A,B,C(never configured)} x {approve,fill,reject} (thorough: x {clean, CR in username}) x last exchange host x operation x field {username, password, path, wwwauth[] entry} x {CR,LF,NUL,clean byte} x {start,middle,end} " +
+		"(quick and 3-exchange: 4 fields, CR at 3 positions, the others in the middle; thorough adds lfs.cachecredentials=false on the 9-world slice); each exchange judged under the configuration applying to ITS url. " +
+		"distinct_nontrivial = distinct (operation, protection, supplied map) tuples whose values contain at least one control / non-ASCII byte and for which a helper call was made and judged (flow: distinct (protection, mode, byte, position, call number) with such a map, because those maps contain an ephemeral port; sequence: distinct (world, cache, exchange sequence, call number) with such a map); plain-ASCII cases only count as evaluations"
 	c.Assumptions = []string{
 		"the `git` found first on PATH is a recording stub; what `git credential` itself does with its input is outside the property",
 		"'refused' is read as: the call returns an error and the helper process received no input",
 		"'receives exactly the supplied pairs' is read as multiset equality of LF-terminated key=value lines; git-lfs's own two capability[] announcement lines are tolerated, order is not compared",
 		"protection enabled/disabled is decided by credential.protectProtocol (and its URL-scoped form, for a plain URL) as supplied in the git configuration; default enabled",
-		"each case uses a fresh helper context (git-lfs skips a helper after its first error and caches approved credentials; sequences across cases are not explored)",
+		"scenarios direct/url use a fresh helper context per case; scenario sequence shares one context across 2-3 exchanges; longer sequences are not explored",
+		"sequence: when the context's credential cache may hold an entry for the exchange's protocol//host//path (an earlier approve, no later reject), git-lfs may answer from the cache without running `git credential`: then delivery is not demanded and a missing error is not a violation, but a value that must be refused must still never reach the helper",
 		"flow scenario: Client.Credentials is a pass-through recorder that forwards to the production helper chain obtained from the client's own credential context",
 	}
 	c.Bounds["palette_sequences"] = len(c17Palette)
